@@ -171,6 +171,47 @@ def scenario(rnd, with_cache):
         return None, sig + (recoverable,)
 
 
+def non_utf8_check():
+    """a state point file that is no longer UTF-8 (one byte >= 0x80 written into it) is a corrupted job like any other: check() names
+    exactly that job, opening it raises JobsCorruptedError, repair() restores it from the cache"""
+    import signac
+    from signac.errors import JobsCorruptedError
+    out = []
+    for with_cache in (False, True):
+        with project_scratch() as p:
+            a, b = p.open_job({"a": 1}).init(), p.open_job({"a": 2}).init()
+            if with_cache:
+                p.update_cache()
+            fn = a.fn("signac_statepoint.json")
+            raw = open(fn, "rb").read()
+            open(fn, "wb").write(raw[:3] + b"\xff" + raw[4:])
+            q = signac.Project(p.path)
+            try:
+                q.check()
+                out.append((f"check:{with_cache}", "check() passed although a state point file is not UTF-8"))
+            except JobsCorruptedError as e:
+                if sorted(e.job_ids) != [a.id]:
+                    out.append((f"check:{with_cache}", f"check() named {sorted(e.job_ids)}, the damaged job is {a.id}"))
+            except Exception as e:
+                out.append((f"check:{with_cache}", f"check() on a project with a non-UTF-8 state point file raised {type(e).__name__}: {e} instead of naming the job"))
+            try:
+                signac.Project(p.path).open_job(id=a.id).statepoint()
+                if not with_cache:
+                    out.append((f"open:{with_cache}", "opening the damaged job by id returned a state point"))
+            except (JobsCorruptedError, UnicodeDecodeError):
+                pass        # rejected either way (the state point loader passes the decode error on: accepted by its contract as well)
+            except Exception as e:
+                out.append((f"open:{with_cache}", f"opening the damaged job by id raised {type(e).__name__}: {e}"))
+            if with_cache:
+                try:
+                    r = signac.Project(p.path)
+                    r.repair()
+                    r.check()
+                except Exception as e:
+                    out.append((f"repair:{with_cache}", f"repair() with a cache entry for the damaged job: {type(e).__name__}: {e}"))
+    return out
+
+
 def run(tier="quick", seed=0):
     b = Budget(14 if tier == "quick" else 300)
     r = run_histories(seed + 9, Budget(5 if tier == "quick" else 100), n_hist=12 if tier == "quick" else 800, length=14 if tier == "quick" else 40)
@@ -191,8 +232,16 @@ def run(tier="quick", seed=0):
         if bad:
             r["failures"].insert(0, {"key": "corrupt:" + str(sig)[:60], "description": bad,
                                      "script": script_header() + f"sys.path.insert(0, '/verif')\nimport random\nfrom pybound.c09 import scenario\nbad, sig = scenario(random.Random({(seed + 9) * 7919 + k}), {with_cache})\nassert not bad, bad\n"})
+    try:
+        found = non_utf8_check()
+    except Exception as e:
+        found = [("raised", f"non_utf8_check raised {type(e).__name__}: {e}")]
+    for key, msg in found:
+        r["failures"].insert(0, {"key": "corrupt:non-utf8:" + key, "description": msg,
+                                 "script": script_header() + "sys.path.insert(0, '/verif')\nfrom pybound.c09 import non_utf8_check\nr = non_utf8_check()\nassert not r, r\n"})
+    evals += 2
     r["evaluations"] += evals
     r["distinct_nontrivial"] += len(distinct)
-    r.update(scope="projects of 1-4 jobs with documents and data files, with/without a persistent cache; 1-3 jobs damaged by truncation at a random offset, single-byte change, "
+    r.update(scope="a state point file that is not UTF-8 any more (with and without cache); projects of 1-4 jobs with documents and data files, with/without a persistent cache; 1-3 jobs damaged by truncation at a random offset, single-byte change, "
                    "deletion, foreign JSON, cross-job swap, directory rename; damage classified by an independent canonical hash; plus random API histories with model equality", rule=RULE)
     return r
